@@ -202,7 +202,7 @@ def check_config(config: dict) -> None:
     intf = config["simulation"]["interfaces"]
     n_ens = len(config["simulation"]["interfaces"])
     n_workers = config["runner"]["workers"]
-    sh_moves = config["simulation"]["shooting_moves"]
+    sh_moves = config["simulation"].get("shooting_moves", [])
     n_sh_moves = len(sh_moves)
     intf_cap = config["simulation"]["tis_set"].get("interface_cap", False)
     quantis = config["simulation"]["tis_set"].get("quantis", False)
@@ -212,6 +212,12 @@ def check_config(config: dict) -> None:
 
     if n_ens < 2:
         raise TOMLConfigError("Define at least 2 interfaces!")
+
+    for value in intf:
+        if isinstance(value, bool) or not isinstance(value, (int, float)):
+            # strings compare and sort among themselves, so they would
+            # pass the checks below and fail when the paths are loaded.
+            raise TOMLConfigError("Interfaces must be numbers!")
 
     for value in list(intf) + [intf_cap, lambda_minus_one]:
         if isinstance(value, float) and value != value:
